@@ -104,6 +104,9 @@ func tierDeadline(tier string) time.Duration {
 	return 150 * time.Second
 }
 
+// preambleFailed aborts a job whose start configuration cannot be reached.
+type preambleFailed struct{ msg string }
+
 // ---------------------------------------------------------------------------
 // Worker
 
@@ -141,6 +144,13 @@ func runWorker(args []string) int {
 		func() {
 			defer func() {
 				if p := recover(); p != nil {
+					if pf, ok := p.(preambleFailed); ok {
+						// the start configuration of this job cannot be built by transactions on this tree:
+						// nothing can be judged from it (and nothing must be blamed on it)
+						r.Truncate("job " + j.Name + ": start configuration unreachable on this tree (" + pf.msg + ")")
+						r.addExtra("unreachable_start_configurations", 1)
+						return
+					}
 					buf := make([]byte, 8192)
 					buf = buf[:runtime.Stack(buf, false)]
 					r.HarnessError("panic in harness job: %v\n%s", p, buf)
